@@ -58,9 +58,15 @@ def check_tick(R, t):
 
 def check_offgrid(R, t, micro):
     td = t * TICK + datetime.timedelta(microseconds=micro)
-    got = TimeTicks(td).value
+    obj = TimeTicks(td)
+    got = obj.value
     if got not in (t, t + 1):
         R.violation({"kind": "tt-offgrid", "t": t, "micro": micro}, "TimeTicks(%r).value == %r, expected %d or %d" % (td, got, t, t + 1), None)
+        return
+    # whichever way it rounds: converting back must give the ticks it holds (and encodes)
+    back = obj.pythonize()
+    if back != got * TICK:
+        R.violation({"kind": "tt-offgrid", "t": t, "micro": micro}, "TimeTicks(%r) holds %d ticks but pythonizes to %r" % (td, got, back), None)
 
 
 def check_counter(R, cls, bits, n):
